@@ -89,6 +89,14 @@ func schedCase0(h *hctx, n, localIdx int) {
 	}
 	// the publisher's list of targets is, index by index, the designated broadcaster every receiver
 	// checks the origin against
+	{
+		tgs := s.BroadcastTargets()
+		tl := make([][]byte, len(tgs))
+		for i, t := range tgs {
+			tl[i] = []byte(t)
+		}
+		h.check("sched-broadcast-targets", rp, "btargets "+hx([]byte(local.id))+" "+hexList(rot), "ok "+hexList(tl), false)
+	}
 	if tg := s.BroadcastTargets(); len(tg) != k+c {
 		h.violate("scheduler-broadcast-targets-differ-from-designated-broadcasters", fmt.Sprintf("n=%d: %d targets for %d shards", n, len(tg), k+c), rp)
 	} else {
